@@ -90,7 +90,8 @@ def inject(prog, r, n_events):
         if c < 0.6:
             return r.choice(leaves)
         a, b = r.choice(small), r.choice(small)
-        return r.choice([["add", a, b], ["neg", a], ["sub", a, b], ["cat", [a, b]], ["as_signed", a] if a[2] else a, ["mul", a, b]])
+        return r.choice([["add", a, b], ["neg", a], ["sub", a, b], ["cat", [a, b]], ["as_signed", a] if a[2] else a, ["mul", a, b],
+                         ["inv", a], ["as_unsigned", a], ["inv", ["as_unsigned", a]], ["slice", a, None, None, None], ["xor", a, b]])
 
     def fmt(tag):
         n = r.randint(0, 3)
